@@ -67,6 +67,17 @@ def gen_cases(ctx):
         z = cmath.exp(1j * phi) * lam
         style = rng.choice(["normalised", "normalised", "generic"])
         mk("metrics", a=sv(rng, n, style), b=sv(rng, n, style), c=sv(rng, n, style), z=[float2bits(z.real), float2bits(z.imag)])
+    # nearby but distinct rays on a short geodesic (distance 1e-5 .. 1e-3): the metric must not collapse them
+    for _ in range(30 if not ctx.thorough() else 120):
+        n = rng.randrange(1, 6)
+        a = sv(rng, n, "normalised"); r = sv(rng, n, "normalised")
+        eps = rng.choice([1e-3, 7e-4, 3e-4, 1e-4, 1e-5])
+        av = [bits2float(x) for x in a["v"]]; rv = [bits2float(x) for x in r["v"]]
+        def near(t):
+            w = [x + t * eps * y for x, y in zip(av, rv)]
+            nrm = math.sqrt(sum(x * x for x in w))
+            return {"n": n, "v": [float2bits(x / nrm) for x in w]}
+        mk("metrics", a=a, b=near(1.0), c=near(2.0), z=[float2bits(math.cos(0.3)), float2bits(math.sin(0.3))])
     # arithmetic
     for _ in range(40 if not ctx.thorough() else 150):
         n = rng.randrange(1, 9)
